@@ -82,7 +82,12 @@ impl Property for C11 {
         // one scenario in ten has a long history (whatever accumulates per record - counters,
         // caches, reused buffers - gets the chance to saturate within one run)
         let long = rng.chance(1, 10);
-        let n = if long {
+        // ... and one in eighty a very long one of tiny records (counters that only saturate
+        // after a thousand events)
+        let very_long = rng.chance(1, 80);
+        let n = if very_long {
+            rng.range(1100, 1600)
+        } else if long {
             rng.range(80, 220)
         } else {
             rng.range(0, if tier == Tier::Thorough { 20 } else { 10 })
@@ -123,7 +128,9 @@ impl Property for C11 {
                 case.pieces[last].tag = "redelivery".into();
                 continue;
             }
-            let v = if long && rng.chance(1, 2) {
+            let v = if very_long {
+                gen_scalar(rng, false)
+            } else if long && rng.chance(1, 2) {
                 // small values with many empty containers
                 gen_val(rng, 2, false)
             } else {
